@@ -1,4 +1,5 @@
 from . import stage
+import c14_check
 
 FLAVOURS = ["san"]
 
@@ -8,6 +9,57 @@ def prebuild(repo):
 
 
 def spec(tier, seed, repo):
+    q = tier == "quick"
+    f = 1 if q else 15          # thorough multiplies the seeded exploration by 25
+    floors = {
+        "runs": 2500 * f, "handovers": 200000 * f, "runs_quiescent": 2400 * f,
+        "runs_with_byzantine": 700 * f, "runs_all_honest": 700 * f,
+        "runs_n2": 100, "runs_n3": 100, "runs_n4": 500, "runs_n5": 200, "runs_n7": 100,
+        "runs_t0": 300, "runs_fifo_mode_0": 200, "runs_fifo_mode_1": 200, "runs_fifo_mode_2": 100,
+        "runs_random": 500, "runs_pct": 300, "runs_starve": 300,
+        "sys2_complete_schedules": 100, "sys4_single_deviation_runs": 300, "sys4_double_deviation_runs": 300,
+        "directed_request_before_payload": 12, "directed_lretrieve_ldeliver_delivery": 1, "directed_cross_channel_runs": 4,
+        "path_request_answer_delivery": 50, "path_ready_amplification": 500,
+        "path_fifo_or_channel_buffer_delivery": 1000, "path_lretrieve_ldeliver_delivery": 1, "path_obsolete_cleanup": 1,
+        "sent_retrieve": 100, "sent_request": 500, "sent_answer": 500,
+        "delivered_via_Deliver": 10000, "delivered_via_DeliverFrom": 1000,
+        "api_setID": 1000, "api_recoverID": 1000, "api_unsetID": 1000, "api_Broadcast": 5000,
+        "oracle_validity_slots": 5000, "oracle_totality_slots": 5000, "byz_slots_delivered": 100,
+        "injected": 5000, "recorded_runs": 100,
+    }
     return dict(
-        stages=[stage("w_c14", repo, nshards=16, case_timeout=600)],
-        level="exploration", rule="tbd", assumptions=[], floors={})
+        stages=[stage("w_c14", repo, nshards=16, case_timeout=600 if q else 1800, total_timeout=3600 if q else 4 * 3600)],
+        level="exploration",
+        rule="one run = one schedule of a closed system of n parties (n in {2,3,4,5,7}; t = floor((n-1)/3) or 0; f <= t "
+             "Byzantine parties whose messages are fabricated by the harness) executing one channel program (setID / "
+             "recoverID / unsetID / Broadcast, 6 templates with nested, sequential and revisited channel identifiers, FIFO on, "
+             "off or mixed per channel) under a step scheduler that hands over one in-flight 5-tuple per library call "
+             "(Deliver or DeliverFrom with time-out 0, virtual time frozen): seeded random link choice, PCT priority "
+             "schedules with <= 3 change points, schedules with starved links, all schedules of a single broadcast for n=2 "
+             "(stateless search with sleep sets: one representative per class of schedules that differ only in the order "
+             "of hand-overs to different parties), oldest-first order with <= 2 deviations (freeze a link / serve the c-th "
+             "oldest) for n=4, and directed schedules (ready quorum before payload, then r-send, then racing answers; "
+             "l-retrieve/l-deliver; parties on different channels).  Every run ends with an epilogue in which all honest "
+             "parties revisit every channel and the network is drained to quiescence.  evaluations = runs; a run is "
+             "non-trivial when it reached the end-of-run oracles; distinct = distinct schedule hashes (hash over the sequence "
+             "of hand-overs, API calls and injections) per case.",
+        assumptions=[
+            "payloads are unique ids (sender, channel, slot, variant), so a delivered value identifies its slot",
+            "'eventually' is replaced by quiescence of a closed system: no in-flight message and one more Deliver / "
+            "DeliverFrom round at every honest party sends and delivers nothing, after every channel was revisited",
+            "links are FIFO per ordered pair of parties (as pipes are); Byzantine parties may send anything at any time",
+            "validity/totality are judged only for runs that became quiescent within the step bound; a run in which a "
+            "Byzantine sender opens a huge sequence-number gap on a FIFO channel (unbounded l-retrieve traffic) is cut "
+            "and judged for safety only (counter obs_lretrieve_flood_runs)",
+            "FIFO order is judged on the sequence of delivery steps (Deliver returning true, directly or inside "
+            "DeliverFrom); DeliverFrom must hand out buffered values of the current channel in that order",
+            "DeliverFrom never calling Deliver while only foreign-channel values are buffered for the requested sender is "
+            "recorded (obs_deliverfrom_blocked_by_foreign_buffer), not judged: the value is delivered by Deliver",
+            "no protocol-model exhaustiveness; n <= 7",
+        ],
+        floors=floors, post=c14_check.post,
+        extra_cov=dict(protocol_paths=["path_request_answer_delivery", "path_ready_amplification",
+                                       "path_fifo_or_channel_buffer_delivery", "path_lretrieve_ldeliver_delivery",
+                                       "path_obsolete_cleanup", "path_buffered_for_later", "path_ready_quorum_delivery"],
+                       offline_checker="ref/c14_check.py re-evaluates all oracles on the recorded sample of complete event logs"),
+    )
